@@ -10,6 +10,7 @@ Fock-space soundness of freeze_orbitals for whole operators, SCBK sector): Spec 
 -/
 import OFV.Proofs.C16
 import OFV.Proofs.C16Pauli
+import OFV.Proofs.C16Loop
 
 namespace OFV.C16
 open OFV OFV.Spec OFV.Model OFV.Model.C16 OFV.C16P OFV.Generated
@@ -154,6 +155,35 @@ theorem fix_single_term_equiv (term stab r : Model.Op) (pos f o : Nat) (ht : Sem
 is multiplied by it -/
 example : fixSingleTerm [([(0, 3), (1, 3)], 1)] 0 3 2 [([(0, 1), (1, 1)], 1)]
     = .ok (mulOp .qubit [([(0, 3), (1, 3)], 1)] [([(0, 1), (1, 1)], 1)]) := by decide +kernel
+
+/- Full statement: for every tolerance `tol`, whenever `_reduce_terms` succeeds its result acts like
+   the input operator on every state stabilized by all the stabilizers.  Proved below for the loop run
+   with `tol = 0` (the `+=` of `new_terms` never prunes); missing for `tol = 1e-8`: the bookkeeping that
+   no partial sum of the run is non-zero but below the tolerance (`ExactAdd` along the run). -/
+/-- **`reduce_terms_agrees_on_codespace`** (pruning-free arithmetic).  For any operator and any list
+of stabilizers with Pauli codes `< 4` — any signs and coefficients, automatic or manual fixed
+positions, commuting or not, independent or not — if the loop of `_reduce_terms` succeeds, the
+reduced operator and the original one act identically on every state `ψ` with `S ψ = ψ` for all
+stabilizers `S` (induction over the stabilizer list: the updated stabilizers still stabilize `ψ`). -/
+theorem reduce_terms_agrees_on_codespace_partial (terms out : Model.Op) (stabs : List Model.Op) (manual : Bool)
+    (fixed fx : List Nat) (stale : Bool) (hv : Sem.ValidOp terms) (hs : ∀ s ∈ stabs, Sem.ValidOp s)
+    (h : reduceTerms 0 terms stabs manual fixed = .ok (out, fx, stale)) (ψ : QS)
+    (hψ : ∀ s ∈ stabs, evOp s ψ = ψ) : evOp out ψ = evOp terms ψ := by
+  rw [reduceTerms_eq] at h
+  cases hf : (List.range stabs.length).foldlM (redBody 0 manual)
+      (terms, (⟨[], stabs, if manual then fixed else [], none, false⟩ : LoopState)) with
+  | error e => simp [hf, bind, Except.bind] at h
+  | ok r =>
+    simp only [hf, bind, Except.bind, Except.ok.injEq, Prod.mk.injEq] at h
+    have hI := foldlM_inv manual ψ (evOp terms) _ _ r hf
+      ⟨hv, fun s hsm => ⟨hs s hsm, hψ s hsm⟩, rfl⟩
+    rw [← h.1]
+    exact hI.2.2
+
+/-- non-vacuity: `Z0 Z1 + Y0 Y1` reduced with the stabilizer `X0 X1` -/
+example : (match reduceTerms 0 [([(0, 3), (1, 3)], 1), ([(0, 2), (1, 2)], 1)] [[([(0, 1), (1, 1)], 1)]] false [] with
+    | .ok r => r.1.length
+    | .error _ => 99) = 1 := by decide +kernel
 
 /-- **`rotate_qubit_by_pauli_sound`**: for a Pauli string `P` on distinct qubits, `c² + s² = 1`,
 called with `cos 2θ = c² - s²`, `sin 2θ = 2cs`, the Model of `rotate_qubit_by_pauli` succeeds and
